@@ -16,6 +16,7 @@ Definition aggfn_eqb (a b : aggfn) : bool :=
   | FCountStar, FCountStar => true
   | FCount x, FCount y | FSum x, FSum y | FAvg x, FAvg y | FMin x, FMin y | FMax x, FMax y
   | FCountDistinct x, FCountDistinct y => expr_eqb x y
+  | FCountDistinctN x, FCountDistinctN y => list_eqb expr_eqb x y
   | _, _ => false
   end.
 Fixpoint aexpr_eqb (a b : aexpr) : bool :=
@@ -25,6 +26,7 @@ Fixpoint aexpr_eqb (a b : aexpr) : bool :=
   | XBin o a1 a2, XBin p b1 b2 => binop_eqb o p && aexpr_eqb a1 b1 && aexpr_eqb a2 b2
   | XNeg x, XNeg y => aexpr_eqb x y
   | XCoalesce a1 a2, XCoalesce b1 b2 => aexpr_eqb a1 b1 && aexpr_eqb a2 b2
+  | XGroupingId x, XGroupingId y => list_eqb expr_eqb x y
   | _, _ => false
   end.
 Definition sitem_eqb (a b : sitem) : bool :=
@@ -53,7 +55,11 @@ Definition stage_eqb (a b : stage) : bool :=
 Lemma binop_eqb_eq o p : binop_eqb o p = true -> o = p.
 Proof. destruct o, p; simpl; intro H; try discriminate; reflexivity. Qed.
 Lemma aggfn_eqb_eq a b : aggfn_eqb a b = true -> a = b.
-Proof. destruct a, b; simpl; intro H; try discriminate; try reflexivity; apply expr_eqb_eq in H; congruence. Qed.
+Proof.
+  destruct a, b; simpl; intro H; try discriminate; try reflexivity;
+    try (apply expr_eqb_eq in H; congruence).
+  f_equal. apply (list_eqb_eq expr_eqb); auto. intros x y; apply expr_eqb_eq.
+Qed.
 Lemma aexpr_eqb_eq a : forall b, aexpr_eqb a b = true -> a = b.
 Proof.
   induction a; intros [] H; simpl in H; try discriminate.
@@ -63,6 +69,7 @@ Proof.
     apply binop_eqb_eq in H0. apply IHa1 in H1. apply IHa2 in H2. congruence.
   - f_equal. auto.
   - apply andb_true_iff in H. destruct H as [H1 H2]. f_equal; auto.
+  - f_equal. apply (list_eqb_eq expr_eqb); auto. intros x y; apply expr_eqb_eq.
 Qed.
 Lemma sitem_eqb_eq a b : sitem_eqb a b = true -> a = b.
 Proof.
